@@ -507,6 +507,9 @@ func (d *driver) one(sc *scenario, r run, ri int) (obs []Ev) {
 			frs, _ := parseOut(t.out)
 			seenClose := false
 			for _, f := range frs {
+				if f.op == 8 {
+					post.K++ // Close frames the client has put on the wire (at most one, ever)
+				}
 				if f.op == 8 && !seenClose {
 					seenClose = true
 					if len(f.payload) >= 2 {
